@@ -48,6 +48,19 @@ unsafe fn do_open(path: *const c_char, flags: c_int, mode: mode_t) -> c_int {
         return real(path);
     }
     let bytes = unsafe { std::ffi::CStr::from_ptr(path) }.to_bytes();
+    if bytes.ends_with(b"/LOCK") {
+        // not tracked, but a point where a gated helper thread can be parked: "about to take the directory lock"
+        if let Ok(s) = std::str::from_utf8(bytes) {
+            let ours = {
+                let g = trace::lock();
+                g.as_ref().map(|t| s.starts_with(&t.prefix)).unwrap_or(false)
+            };
+            if ours {
+                trace::gate_arrive(trace::current_role(), Sk::OpenRd, trace::LOCK_POINT);
+            }
+        }
+        return real(path);
+    }
     if !bytes.ends_with(b".wal") {
         return real(path);
     }
